@@ -201,7 +201,7 @@ func (u *Unit) runBody(st *State, body []ast.Stmt) {
 	}
 	flow := Flow{
 		ret: func(s *State, r []Term) {
-			u.exits = append(u.exits, &Exit{st: s, results: r})
+			u.exits = append(u.exits, &Exit{st: s, results: r, fromCase: u.inCase})
 		},
 	}
 	flow.next = func(s *State) {
@@ -244,10 +244,16 @@ func (u *Unit) finish() {
 	if u.resNamesOverride != nil {
 		resNames = u.resNamesOverride
 	}
+	endPos := u.bodyPos
+	if u.closureLit != nil {
+		endPos = u.closureLit.Body.Rbrace - 1
+	} else if u.fd != nil && u.fd.Body != nil && u.caseClause == nil {
+		endPos = u.fd.Body.Rbrace - 1 // top-level locals of the body are in scope for postconditions
+	}
 	for i, c := range b.clauses("ensures") {
 		var parts []string
 		for _, ex := range u.exits {
-			e := u.specEv(ex.st, u.bodyPos)
+			e := u.specEv(ex.st, endPos)
 			e.results = ex.results
 			e.resNames = resNames
 			t := e.evSpec(c.Text)
@@ -722,6 +728,12 @@ func (u *Unit) finishCase() {
 			u.addMerged(fmt.Sprintf("%s/ctx#%s", b.ID(), name), props, parts, "every case: "+c.Text)
 		}
 	}
+	var resNames []string
+	if u.sig != nil {
+		for i := 0; i < u.sig.Results().Len(); i++ {
+			resNames = append(resNames, u.sig.Results().At(i).Name())
+		}
+	}
 	for i, c := range b.clauses("ensures") {
 		var parts []string
 		for _, ex := range u.caseExits {
@@ -729,6 +741,19 @@ func (u *Unit) finishCase() {
 			e.old = u.caseEntry
 			t := e.evSpec(c.Text)
 			parts = append(parts, pathImp(ex.pc, t.S))
+		}
+		// `return` statements inside the case leave the function: the case's postconditions
+		// (which may mention result) must hold at those exits as well
+		for _, ex := range u.exits {
+			if !ex.fromCase {
+				continue
+			}
+			e := u.specEv(ex.st, pos)
+			e.old = u.caseEntry
+			e.results = ex.results
+			e.resNames = resNames
+			t := e.evSpec(c.Text)
+			parts = append(parts, pathImp(ex.st.pc, t.S))
 		}
 		name := c.Name
 		if name == "" {
